@@ -115,7 +115,7 @@ ASSUMPTIONS = [
 ]
 BUDGET = {"quick": {"worker_timeout": 900, "case_timeout": 200}, "thorough": {"worker_timeout": 3300, "case_timeout": 400}}
 SHARDS_PER_JOB = 2
-_REQ = {"abort_reuse_compared": 20, "first_nograph_path": 150, "first_graph_path": 300, "second_order_compared": 150, "ts_grad_compared": 300,
+_REQ = {"abort_reuse_compared": 20, "long_horizon_compared": 10, "first_nograph_path": 150, "first_graph_path": 300, "second_order_compared": 150, "ts_grad_compared": 300,
         "ts_second_adaptive": 60, "tuple_state": 40, "decreasing_ts": 200, "objparams_grad_compared": 250, "unused_checked": 120,
         "bck_different": 200, "rhs_calls_backward": 100000, "rhs_calls_backward2": 30000, "bcklin_compared": 60,
         "refinement_tests": 200, "cot_one_time": 250, "aliased_compared": 40, "derived_leaves": 80,
